@@ -179,6 +179,8 @@ fn c02_profiles() -> Vec<(&'static str, Profile, u32, u32)> {
     p.k_probe = 1;
     p.probe_lifecycle_pct = 0;
     p.k_gen = 7;
+    p.k_exec = 2;
+    p.o_exec = 5;
     p.o_async = 3;
     p.o_cause = 16;
     p.o_insert = 8;
@@ -270,6 +272,8 @@ fn c06_profiles() -> Vec<(&'static str, Profile, u32, u32)> {
     p.o_token = 14;
     p.o_handle = 5;
     p.o_idle = 2;
+    p.k_exec = 2;
+    p.o_exec = 5;
     p.post_pct = 35;
     p.max_ops = 50;
     p.k_probe = 1;
@@ -306,6 +310,8 @@ fn c07_profiles() -> Vec<(&'static str, Profile, u32, u32)> {
     p.k_comp = 2;
     p.o_token = 16;
     p.o_cause = 12;
+    p.k_exec = 2;
+    p.o_exec = 5;
     p.o_insert = 5;
     p.k_probe = 1;
     p.probe_lifecycle_pct = 30;
@@ -347,6 +353,8 @@ fn c08_profiles() -> Vec<(&'static str, Profile, u32, u32)> {
     p.o_token = 12;
     p.o_idle = 4;
     p.o_async = 3;
+    p.k_exec = 2;
+    p.o_exec = 4;
     p.k_probe = 2;
     p.probe_lifecycle_pct = 50;
     p.post_pct = 20;
@@ -680,6 +688,8 @@ fn c16_profiles() -> Vec<(&'static str, Profile, u32, u32)> {
     p.k_probe = 1;
     p.probe_lifecycle_pct = 0;
     p.o_recycle = 5;
+    p.k_exec = 2;
+    p.o_exec = 3;
     p.o_async = 7;
     p.o_token = 12;
     p.o_insert = 8;
